@@ -20,7 +20,7 @@ CLAIMED = {
                 "value setters notify and update() overrides produce the value through .value reads and clear the flag, evaluating the function once (B3), "
                 "value getter updates exactly under (stale and not frozen) (B6), mark_for_update/notify_parents have the stop condition that carries the "
                 "invariant 'stale => ancestors stale or frozen' (B4), every Nexus edit ends in a cycle check (B5), Function keeps parameters in sync (B7). "
-                "These are necessary conditions of 'reads equal a from-scratch evaluation': each broken obligation yields a concrete stale read.",
+                "These are necessary conditions of 'reads equal a from-scratch evaluation': each broken obligation yields a concrete stale read. Added: (B10) replace_child substitutes the node at every position; (B11) a rejected cyclic dependency takes back exactly the edges it added.",
         "note": "Decides the per-method obligations, not the global state-machine correctness over arbitrary graphs (a model-checking statement outside this "
                 "technique family). Trusted: Python semantics of attribute stores; weakref parent sets behave as sets.",
         "technique": "custom AST/CFG must-pass-through and guard-condition rules over the resolved node class hierarchy",
@@ -220,7 +220,7 @@ CLAIMED = {
                 "symmetrised, the scipy adapter unpacks with the index arrays it packed with; correlation = cov / outer(sigma, sigma) on the free sub-block, "
                 "symmetric errors = sqrt(diag(cov)); asymmetric errors are cost cuts at minimum + 1 measured from the optimum, the cut function is cost - "
                 "target with the parameter pinned and the rest re-minimised, contour levels are minimum + sigma^2; error band = sqrt(p^T C p) with one mask "
-                "for derivatives and covariance; argument-slot rule (F1) on 594 resolved call sites of the minimizer / fitter / profiler / xy classes. Added: every state snapshot overwrites every cached result entry (S-snap); the error band is allocated as float.",
+                "for derivatives and covariance; argument-slot rule (F1) on 594 resolved call sites of the minimizer / fitter / profiler / xy classes. Added: every state snapshot overwrites every cached result entry (S-snap); the error band is allocated as float. Added: (H-minos) the MINOS interval of a free parameter lands in the row of that parameter, rows of fixed parameters stay (0, 0), the result is filled in place.",
         "note": "That the Hessian is the Hessian of the actual cost, that the backend's profile/contour points are converged, and all numerical values are "
                 "not decided. Several bookkeeping rules match normalised statement text of the anchor functions; a rewrite of those functions shows up as a "
                 "failed obligation and needs re-triage.",
@@ -233,7 +233,7 @@ CLAIMED = {
                 "written - 103 key obligations; (E3) no two keys written from the same expression; (E4) values stored flag-dependently are written through the "
                 "accessor selected by the serialised flag; (E5) per-source state used by the total (object, axis, enabled) is written, restored and applied, both "
                 "'load results' sites apply the stored parameter values; (E6) truncate(0) dominates every write on the append-mode handle and every writer uses "
-                "that write; (E7) the three shorthand expanders accept the same scalar types; (E8) reader-side installs are followed by the fit's own invalidation. Added: flags / numbers are never dropped by a truthiness test in a reader (E11); stored parameter values are applied after re-fixing (E12); mappings the reader turns into a list are written in source order (E13); every constructor setting stored on a fit is written and restored, the implicit no-errors state is written as the default identifier (E14, E5).",
+                "that write; (E7) the three shorthand expanders accept the same scalar types; (E8) reader-side installs are followed by the fit's own invalidation. Added: flags / numbers are never dropped by a truthiness test in a reader (E11); stored parameter values are applied after re-fixing (E12); mappings the reader turns into a list are written in source order (E13); every constructor setting stored on a fit is written and restored, the implicit no-errors state is written as the default identifier (E14, E5). Added: (E15) the result dictionary (what a second save writes) takes the asymmetric uncertainties from the re-injected results before asking the fit's own minimiser.",
         "note": "Value-level round-trip equality, second-cycle idempotence and refit equality are dynamic and not decided. Two genuine defects are recorded as "
                 "known findings (CostFunction / FunctionFormatter offer to_file without any representer).",
         "technique": "table extraction from ast (registrations, type tables, written/consumed key sets) + set agreement; CFG dominance for truncation",
